@@ -666,3 +666,24 @@ pub fn engine_from_bytes(bytes: &[u8]) -> Result<jbonsai::Engine, jbonsai::Engin
     let v = load_voice_bytes(bytes)?;
     engine_from_voices(vec![std::sync::Arc::new(v)])
 }
+
+/// The voicing weight of a PDF as an option, whether the crate stores it as `Option<f64>` (today) or as a plain `f64`
+/// with `f64::MAX` standing for "no multi-space distribution" (a representation change must not stop the harness
+/// from compiling: it is the behaviour that is checked).
+pub trait MsdLike {
+    fn opt(&self) -> Option<f64>;
+}
+impl MsdLike for Option<f64> {
+    fn opt(&self) -> Option<f64> {
+        *self
+    }
+}
+impl MsdLike for f64 {
+    fn opt(&self) -> Option<f64> {
+        if *self == f64::MAX {
+            None
+        } else {
+            Some(*self)
+        }
+    }
+}
